@@ -260,7 +260,7 @@ theorem deliverPub_eq (c : Ctx) (t : Topic) (a : Actor) (m : MsgRow) (mk noEcho 
   rw [dataRcpt_pubTopic]
   refine ⟨?_, ?_, ?_, ?_⟩
   · split <;> rfl
-  · split <;> simp [Ctx.putLive, Ctx.emit, List.append_assoc]
+  · split <;> simp [Ctx.putLive, Ctx.emit, Ctx.offq, List.append_assoc]
   · split <;> rfl
   · split <;> rfl
 
